@@ -136,8 +136,9 @@ Example ph_cycle_transparent :
   wsim (run_ops ph_mid world0)
        (run_ops (pause_op A_owner :: ph_mid ++ [unpause_op A_owner None]) world0).
 Proof.
-  apply pause_cycle_transparent; [apply ph_cycle_ready | discriminate | apply ph_mid_hub_free
-                                 | apply ph_mid_hub_free].
+  destruct ph_mid_hub_free as (A & B & _).
+  assert (Hz : @None bool <> Some true) by discriminate.
+  exact (proj2 (pause_cycle_transparent world0 A_owner None ph_mid ph_cycle_ready Hz A B)).
 Qed.
 
 (** the two representations really occur: the cycle leaves [None] where instantiate wrote
@@ -147,6 +148,19 @@ Example ph_cycle_flag_repr :
   option_map (fun h => hp_paused (h_params h))
     (w_hub (run_ops (pause_op A_owner :: ph_mid ++ [unpause_op A_owner None]) world0)) = Some None.
 Proof. split; vm_compute; reflexivity. Qed.
+
+Lemma ph_cycle_summary :
+  CycleReady world0 A_owner /\
+  (Forall (fun o => hub_exempt_op o = false) ph_mid /\ guarded hub_free ph_mid world0 /\
+   map fst (outcomes ph_mid world0) = [true; true; true; true]) /\
+  wsim (run_ops ph_mid world0)
+       (run_ops (pause_op A_owner :: ph_mid ++ [unpause_op A_owner None]) world0) /\
+  option_map (fun h => hp_paused (h_params h)) (w_hub (run_ops ph_mid world0)) = Some (Some false) /\
+  option_map (fun h => hp_paused (h_params h))
+    (w_hub (run_ops (pause_op A_owner :: ph_mid ++ [unpause_op A_owner None]) world0)) = Some None.
+Proof.
+  exact (conj ph_cycle_ready (conj ph_mid_hub_free (conj ph_cycle_transparent ph_cycle_flag_repr))).
+Qed.
 
 (** the hub-free hypothesis is needed: an Unbond in between succeeds without the cycle and is
     rejected inside it, so the final worlds differ in alice's token balance *)
